@@ -52,9 +52,26 @@ package keeper
 
 // ---- frames of the settlement and close helpers (not looked into: checked against the call-graph
 // inference for chain state; every pointer parameter they could write through is listed) ----------------
+// Stored-state form (C09): handed a position and a pool that are IN STEP with the store - the pool
+// object differs from the stored pool by exactly what the position object differs from its stored row,
+// for the pool, side and asset looked at - the function leaves `stored pool - sum over stored
+// positions` where it was, and the objects in step.
+//@ define storedCustody(ctx, p, s, d) := ite(perpPoolHas(ctx, p), perpCustodyOf(perpPoolRow(ctx, p), s, d), 0)
+//@ define storedLiab(ctx, p, s, d) := ite(perpPoolHas(ctx, p), perpLiabOf(perpPoolRow(ctx, p), s, d), 0)
+//@ define storedColl(ctx, p, s, d) := ite(perpPoolHas(ctx, p), perpCollOf(perpPoolRow(ctx, p), s, d), 0)
+//@ define inStepCustody(ctx, m, pool, p, s, d) := ite(p == pool.AmmPoolId, perpCustodyOf(pool, s, d), storedCustody(ctx, p, s, d)) - storedCustody(ctx, p, s, d) == objCustody(m, p, s, d) - rowCustody(ctx, unbech32(m.Address), m.Id, p, s, d)
+//@ define inStepLiab(ctx, m, pool, p, s, d) := ite(p == pool.AmmPoolId, perpLiabOf(pool, s, d), storedLiab(ctx, p, s, d)) - storedLiab(ctx, p, s, d) == objLiab(m, p, s, d) - rowLiab(ctx, unbech32(m.Address), m.Id, p, s, d)
+//@ define inStepColl(ctx, m, pool, p, s, d) := ite(p == pool.AmmPoolId, perpCollOf(pool, s, d), storedColl(ctx, p, s, d)) - storedColl(ctx, p, s, d) == objColl(m, p, s, d) - rowColl(ctx, unbech32(m.Address), m.Id, p, s, d)
+
 //@ func (Keeper).SettleFunding
+//@ forall p Int
+//@ forall s Int
+//@ forall d Str
 //@ modifies module:perpetual, *mtp, *pool
-//@ frame-only
+//@ ensures C09/funding-settlement-keeps-the-custody-gap: err == nil && old(mtp.Id != 0 && mtp.AmmPoolId == pool.AmmPoolId && inStepCustody(ctx, mtp, pool, p, s, d)) ==> custodyGap(ctx, p, s, d) == old(custodyGap(ctx, p, s, d)) && inStepCustody(ctx, mtp, pool, p, s, d)
+//@ ensures C09/funding-settlement-keeps-the-liabilities-gap: err == nil && old(mtp.Id != 0 && mtp.AmmPoolId == pool.AmmPoolId && inStepLiab(ctx, mtp, pool, p, s, d)) ==> liabGap(ctx, p, s, d) == old(liabGap(ctx, p, s, d)) && inStepLiab(ctx, mtp, pool, p, s, d)
+//@ ensures C09/funding-settlement-keeps-the-collateral-gap: err == nil && old(mtp.Id != 0 && mtp.AmmPoolId == pool.AmmPoolId && inStepColl(ctx, mtp, pool, p, s, d)) ==> collGap(ctx, p, s, d) == old(collGap(ctx, p, s, d)) && inStepColl(ctx, mtp, pool, p, s, d)
+//@ ensures C09/funding-settlement-keeps-the-pool-id: pool.AmmPoolId == old(pool.AmmPoolId)
 
 // C09: paying borrow interest takes the same custody from the position and from the pool's book for
 // the position's side and custody asset, and touches no other aggregate.
@@ -64,11 +81,13 @@ package keeper
 //@ modifies bank, module:amm, *mtp, *pool
 //@ ensures C09/interest-leaves-position-and-pool-custody-alike: err == nil ==> perpCustodyOf(pool, s, d) - old(perpCustodyOf(pool, s, d)) == ite(sameBook(s, d, mtp.Position, mtp.CustodyAsset), mtp.Custody - old(mtp.Custody), 0)
 //@ ensures C09/interest-keeps-liabilities-and-collateral: err == nil ==> mtp.Liabilities == old(mtp.Liabilities) && mtp.Collateral == old(mtp.Collateral) && perpLiabOf(pool, s, d) == old(perpLiabOf(pool, s, d)) && perpCollOf(pool, s, d) == old(perpCollOf(pool, s, d))
+//@ ensures C09/interest-settlement-keeps-the-pool-id: pool.AmmPoolId == old(pool.AmmPoolId)
 //@ ensures C09/interest-keeps-the-position-identity: mtp.Position == old(mtp.Position) && mtp.CustodyAsset == old(mtp.CustodyAsset) && mtp.AmmPoolId == old(mtp.AmmPoolId)
 
 //@ func (Keeper).UpdateMTPBorrowInterestUnpaidLiability
 //@ modifies *mtp
-//@ frame-only
+//@ decabstract
+//@ ensures C09/interest-accrual-keeps-the-amounts: mtp.Custody == old(mtp.Custody) && mtp.Liabilities == old(mtp.Liabilities) && mtp.Collateral == old(mtp.Collateral)
 
 //@ func (Keeper).GetMTPHealth
 //@ modifies module:amm
@@ -117,6 +136,10 @@ package keeper
 //@ ensures C09/borrow-adds-the-position-custody-to-the-pool: err == nil && old(perpLists(pool, mtp.Position, mtp.CustodyAsset)) ==> perpCustodyOf(pool, s, d) - old(perpCustodyOf(pool, s, d)) == ite(sameBook(s, d, mtp.Position, mtp.CustodyAsset), mtp.Custody, 0)
 //@ ensures C09/borrow-adds-the-position-liabilities-to-the-pool: err == nil && old(perpLists(pool, mtp.Position, mtp.CustodyAsset)) ==> perpLiabOf(pool, s, d) - old(perpLiabOf(pool, s, d)) == ite(sameBook(s, d, mtp.Position, mtp.LiabilitiesAsset), mtp.Liabilities, 0)
 //@ ensures C09/borrow-adds-the-position-collateral-to-the-pool: err == nil && old(perpLists(pool, mtp.Position, mtp.CustodyAsset)) ==> perpCollOf(pool, s, d) - old(perpCollOf(pool, s, d)) == ite(sameBook(s, d, mtp.Position, mtp.CollateralAsset), mtp.Collateral, 0)
+//@ forall p Int
+//@ ensures C09/borrow-keeps-the-custody-gap: err == nil && old(perpLists(pool, mtp.Position, mtp.CustodyAsset)) && old(mtp.Id == 0 && mtp.AmmPoolId == pool.AmmPoolId && ite(p == pool.AmmPoolId, perpCustodyOf(pool, s, d), storedCustody(ctx, p, s, d)) == storedCustody(ctx, p, s, d)) ==> custodyGap(ctx, p, s, d) == old(custodyGap(ctx, p, s, d))
+//@ ensures C09/borrow-keeps-the-liabilities-gap: err == nil && old(perpLists(pool, mtp.Position, mtp.CustodyAsset)) && old(mtp.Id == 0 && mtp.AmmPoolId == pool.AmmPoolId && ite(p == pool.AmmPoolId, perpLiabOf(pool, s, d), storedLiab(ctx, p, s, d)) == storedLiab(ctx, p, s, d)) ==> liabGap(ctx, p, s, d) == old(liabGap(ctx, p, s, d))
+//@ ensures C09/borrow-keeps-the-collateral-gap: err == nil && old(perpLists(pool, mtp.Position, mtp.CustodyAsset)) && old(mtp.Id == 0 && mtp.AmmPoolId == pool.AmmPoolId && ite(p == pool.AmmPoolId, perpCollOf(pool, s, d), storedColl(ctx, p, s, d)) == storedColl(ctx, p, s, d)) ==> collGap(ctx, p, s, d) == old(collGap(ctx, p, s, d))
 //@ ensures C09/borrow-stores-the-updated-pool: err == nil && old(perpLists(pool, mtp.Position, mtp.CustodyAsset)) ==> perpPoolHas(ctx, pool.AmmPoolId) && perpCustodyOf(perpPoolRow(ctx, pool.AmmPoolId), s, d) == perpCustodyOf(pool, s, d) && perpLiabOf(perpPoolRow(ctx, pool.AmmPoolId), s, d) == perpLiabOf(pool, s, d) && perpCollOf(perpPoolRow(ctx, pool.AmmPoolId), s, d) == perpCollOf(pool, s, d)
 
 //@ func (Keeper).UpdatePoolHealth
@@ -132,9 +155,15 @@ package keeper
 //@ frame-only
 
 //@ func (Keeper).EstimateAndRepay
+//@ forall p Int
+//@ forall s Int
+//@ forall d Str
+//@ decabstract
 //@ modifies bank, module:amm, module:perpetual, *mtp, *pool, *ammPool
 //@ callers C10/repay-only-from-owner-close-or-force-close: (Keeper).ClosePosition, (Keeper).ForceCloseLong, (Keeper).ForceCloseShort
-//@ frame-only
+//@ ensures C09/close-keeps-the-custody-gap: err == nil && old(mtp.Id != 0 && mtp.AmmPoolId == pool.AmmPoolId && inStepCustody(ctx, mtp, pool, p, s, d)) && (mtp.Custody > 0 || (mtp.Custody == 0 && mtp.Liabilities == 0 && mtp.Collateral == 0)) ==> custodyGap(ctx, p, s, d) == old(custodyGap(ctx, p, s, d))
+//@ ensures C09/close-keeps-the-liabilities-gap: err == nil && old(mtp.Id != 0 && mtp.AmmPoolId == pool.AmmPoolId && inStepLiab(ctx, mtp, pool, p, s, d)) && (mtp.Custody > 0 || (mtp.Custody == 0 && mtp.Liabilities == 0 && mtp.Collateral == 0)) ==> liabGap(ctx, p, s, d) == old(liabGap(ctx, p, s, d))
+//@ ensures C09/close-keeps-the-collateral-gap: err == nil && old(mtp.Id != 0 && mtp.AmmPoolId == pool.AmmPoolId && inStepColl(ctx, mtp, pool, p, s, d)) && (mtp.Custody > 0 || (mtp.Custody == 0 && mtp.Liabilities == 0 && mtp.Collateral == 0)) ==> collGap(ctx, p, s, d) == old(collGap(ctx, p, s, d))
 
 // The safety factor is a parameter read; summarised so that clauses can name the value read.
 //@ func (Keeper).GetSafetyFactor
@@ -176,7 +205,7 @@ package keeper
 //@ ensures C10/position-off-its-take-profit-left-alone: !called("ForceCloseLong", 1) && !called("ForceCloseShort", 1) ==> unchanged(ctx)
 
 // A stored position sits under its owner's address and its id.
-//@ rowinv C10/mtpKey table perpetual:types.GetMTPKey row types.MTP : unbech32(row.Address) == key0 && row.Id == key1
+//@ rowinv C10,C09/mtpKey table perpetual:types.GetMTPKey row types.MTP : unbech32(row.Address) == key0 && row.Id == key1 && key1 > 0
 
 // C09: the open-position counter moves with the number of stored positions. Position ids are handed out
 // from a counter: nothing is stored under an id above it (assumed at entry, as for leveragelp).
@@ -185,7 +214,30 @@ package keeper
 //@ define mtpIdCount(ctx) := rowU64(ctx, "perpetual:types.MTPCountPrefix")
 //@ define mtpCountGap(ctx) := openMtpCount(ctx) - mtpCount(ctx)
 
+// Stored-state form: per pool, side and asset, what the stored pool records minus the sum over the stored
+// positions. A position counts under its own pool id, side and asset fields.
+//@ define objCustody(m, p, s, d) := ite(m.AmmPoolId == p && sameBook(s, d, m.Position, m.CustodyAsset), m.Custody, 0)
+//@ define objLiab(m, p, s, d) := ite(m.AmmPoolId == p && sameBook(s, d, m.Position, m.LiabilitiesAsset), m.Liabilities, 0)
+//@ define objColl(m, p, s, d) := ite(m.AmmPoolId == p && sameBook(s, d, m.Position, m.CollateralAsset), m.Collateral, 0)
+//@ aggregate mtpCustodySum(p,s,d) table perpetual:types.GetMTPKey row types.MTP value objCustody(row, p, s, d)
+//@ aggregate mtpLiabSum(p,s,d) table perpetual:types.GetMTPKey row types.MTP value objLiab(row, p, s, d)
+//@ aggregate mtpCollSum(p,s,d) table perpetual:types.GetMTPKey row types.MTP value objColl(row, p, s, d)
+//@ define rowCustody(ctx, a, id, p, s, d) := ite(mtpHas(ctx, a, id), objCustody(mtpRow(ctx, a, id), p, s, d), 0)
+//@ define rowLiab(ctx, a, id, p, s, d) := ite(mtpHas(ctx, a, id), objLiab(mtpRow(ctx, a, id), p, s, d), 0)
+//@ define rowColl(ctx, a, id, p, s, d) := ite(mtpHas(ctx, a, id), objColl(mtpRow(ctx, a, id), p, s, d), 0)
+//@ define custodyGap(ctx, p, s, d) := ite(perpPoolHas(ctx, p), perpCustodyOf(perpPoolRow(ctx, p), s, d), 0) - mtpCustodySum(ctx, p, s, d)
+//@ define liabGap(ctx, p, s, d) := ite(perpPoolHas(ctx, p), perpLiabOf(perpPoolRow(ctx, p), s, d), 0) - mtpLiabSum(ctx, p, s, d)
+//@ define collGap(ctx, p, s, d) := ite(perpPoolHas(ctx, p), perpCollOf(perpPoolRow(ctx, p), s, d), 0) - mtpCollSum(ctx, p, s, d)
+
 //@ func (Keeper).SetMTP
+//@ forall p Int
+//@ forall s Int
+//@ forall d Str
+//@ letold slot := ite(mtp.Id == 0, mtpIdCount(ctx) + 1, mtp.Id)
+//@ ensures C09/set-replaces-the-row-in-the-custody-sum: err == nil ==> mtpCustodySum(ctx, p, s, d) == old(mtpCustodySum(ctx, p, s, d)) + objCustody(mtp, p, s, d) - old(rowCustody(ctx, unbech32(mtp.Address), slot, p, s, d))
+//@ ensures C09/set-replaces-the-row-in-the-liabilities-sum: err == nil ==> mtpLiabSum(ctx, p, s, d) == old(mtpLiabSum(ctx, p, s, d)) + objLiab(mtp, p, s, d) - old(rowLiab(ctx, unbech32(mtp.Address), slot, p, s, d))
+//@ ensures C09/set-replaces-the-row-in-the-collateral-sum: err == nil ==> mtpCollSum(ctx, p, s, d) == old(mtpCollSum(ctx, p, s, d)) + objColl(mtp, p, s, d) - old(rowColl(ctx, unbech32(mtp.Address), slot, p, s, d))
+//@ ensures C09/set-takes-the-next-id-for-a-new-position: err == nil ==> mtp.Id == slot
 //@ modifies table:perpetual:types.GetMTPKey, table:perpetual:types.MTPCountPrefix, table:perpetual:types.OpenMTPCountPrefix, *mtp.Id
 //@ modular-for (Keeper).Borrow
 //@ callers-assumed C09: the flows above the row writers (open, close, liquidation) are not under a stored-state contract yet (DESIGN A.5)
@@ -206,11 +258,27 @@ package keeper
 //@ callers-assumed C09: the flows above the row writers (open, close, liquidation) are not under a stored-state contract yet (DESIGN A.5)
 //@ ensures C09/destroy-keeps-open-counter-in-step: err == nil && old(openMtpCount(ctx)) > 0 ==> mtpCountGap(ctx) == old(mtpCountGap(ctx))
 //@ ensures C09/destroy-removes-the-row: err == nil ==> !mtpHas(ctx, mtpAddress, id)
+//@ forall p Int
+//@ forall s Int
+//@ forall d Str
+//@ ensures C09/destroy-takes-the-row-out-of-the-sums: err == nil ==> mtpCustodySum(ctx, p, s, d) == old(mtpCustodySum(ctx, p, s, d)) - old(rowCustody(ctx, mtpAddress, id, p, s, d)) && mtpLiabSum(ctx, p, s, d) == old(mtpLiabSum(ctx, p, s, d)) - old(rowLiab(ctx, mtpAddress, id, p, s, d)) && mtpCollSum(ctx, p, s, d) == old(mtpCollSum(ctx, p, s, d)) - old(rowColl(ctx, mtpAddress, id, p, s, d))
 //@ ensures C09/destroy-refuses-a-missing-position: (err != nil) == !old(mtpHas(ctx, mtpAddress, id))
 
 // The owner's close looks the position up under the sender's own address.
+// A stored perpetual pool sits under its own id.
+//@ rowinv C09/perpPoolKey table perpetual:types.GetPoolKey row types.Pool : row.AmmPoolId == key0
+
+// C09, one whole message flow: the owner's close leaves `stored pool - sum over stored positions` where it
+// was, for every pool, side and asset (stated for a position that is kept, or removed with nothing left:
+// see the finding on Repay).
 //@ func (Keeper).ClosePosition
 //@ decabstract
+//@ forall p Int
+//@ forall s Int
+//@ forall d Str
+//@ ensures C09/user-close-keeps-the-custody-gap: err == nil && (result0.Custody > 0 || (result0.Custody == 0 && result0.Liabilities == 0 && result0.Collateral == 0)) ==> custodyGap(ctx, p, s, d) == old(custodyGap(ctx, p, s, d))
+//@ ensures C09/user-close-keeps-the-liabilities-gap: err == nil && (result0.Custody > 0 || (result0.Custody == 0 && result0.Liabilities == 0 && result0.Collateral == 0)) ==> liabGap(ctx, p, s, d) == old(liabGap(ctx, p, s, d))
+//@ ensures C09/user-close-keeps-the-collateral-gap: err == nil && (result0.Custody > 0 || (result0.Custody == 0 && result0.Liabilities == 0 && result0.Collateral == 0)) ==> collGap(ctx, p, s, d) == old(collGap(ctx, p, s, d))
 //@ ensures C10/owner-closes-own-position: err == nil ==> unbech32(result0.Address) == unbech32(msg.Creator) && result0.Id == msg.Id
 
 // ---- C02: transfers between a position and the amm pool move reserves, never shares ------------------
@@ -250,19 +318,27 @@ package keeper
 //@ ensures C09/repay-takes-the-same-liabilities-from-position-and-pool: err == nil ==> perpLiabOf(pool, s, d) - old(perpLiabOf(pool, s, d)) == ite(sameBook(s, d, mtp.Position, mtp.LiabilitiesAsset), mtp.Liabilities - old(mtp.Liabilities), 0)
 //@ ensures C09/repay-takes-the-same-collateral-from-position-and-pool: err == nil ==> perpCollOf(pool, s, d) - old(perpCollOf(pool, s, d)) == ite(sameBook(s, d, mtp.Position, mtp.CollateralAsset), mtp.Collateral - old(mtp.Collateral), 0)
 //@ ensures C09/repay-stores-the-updated-pool: err == nil ==> perpPoolHas(ctx, pool.AmmPoolId) && perpCustodyOf(perpPoolRow(ctx, pool.AmmPoolId), s, d) == perpCustodyOf(pool, s, d) && perpLiabOf(perpPoolRow(ctx, pool.AmmPoolId), s, d) == perpLiabOf(pool, s, d) && perpCollOf(perpPoolRow(ctx, pool.AmmPoolId), s, d) == perpCollOf(pool, s, d)
+//@ forall p Int
+//@ ensures C09/repay-keeps-the-custody-gap: err == nil && old(mtp.Id != 0 && mtp.AmmPoolId == pool.AmmPoolId && inStepCustody(ctx, mtp, pool, p, s, d)) && (mtp.Custody > 0 || (mtp.Custody == 0 && mtp.Liabilities == 0 && mtp.Collateral == 0)) ==> custodyGap(ctx, p, s, d) == old(custodyGap(ctx, p, s, d))
+//@ ensures C09/repay-keeps-the-liabilities-gap: err == nil && old(mtp.Id != 0 && mtp.AmmPoolId == pool.AmmPoolId && inStepLiab(ctx, mtp, pool, p, s, d)) && (mtp.Custody > 0 || (mtp.Custody == 0 && mtp.Liabilities == 0 && mtp.Collateral == 0)) ==> liabGap(ctx, p, s, d) == old(liabGap(ctx, p, s, d))
+//@ ensures C09/repay-keeps-the-collateral-gap: err == nil && old(mtp.Id != 0 && mtp.AmmPoolId == pool.AmmPoolId && inStepColl(ctx, mtp, pool, p, s, d)) && (mtp.Custody > 0 || (mtp.Custody == 0 && mtp.Liabilities == 0 && mtp.Collateral == 0)) ==> collGap(ctx, p, s, d) == old(collGap(ctx, p, s, d))
+// The gap clauses above are stated for a position that is kept, or removed with nothing left. This one
+// says a position is only removed with nothing left (for sane inputs: amounts not negative, a closing
+// ratio in (0, 1], liabilities paid in that ratio).
+//@ local-ensures C09/a-removed-position-has-nothing-left: err == nil && old(mtp.Custody >= 0 && mtp.Liabilities >= 0 && mtp.Collateral >= 0) && closingRatio > 0 && closingRatio <= 1000000000000000000 && payingLiabilities == (old(mtp.Liabilities) * closingRatio) / 1000000000000000000 && mtp.Custody <= 0 ==> mtp.Custody == 0 && mtp.Liabilities == 0 && mtp.Collateral == 0
 //@ ensures C09/repay-stores-or-removes-the-position: err == nil ==> ite(mtp.Custody <= 0, !mtpHas(ctx, unbech32(mtp.Address), mtp.Id), mtpHas(ctx, unbech32(mtp.Address), mtp.Id) && mtpRow(ctx, unbech32(mtp.Address), mtp.Id).Custody == mtp.Custody && mtpRow(ctx, unbech32(mtp.Address), mtp.Id).Liabilities == mtp.Liabilities && mtpRow(ctx, unbech32(mtp.Address), mtp.Id).Collateral == mtp.Collateral)
 
 //@ func (Keeper).FundingFeeCollection
 //@ forall d Str
 //@ forall s Int
-//@ modifies *mtp, *pool
+//@ modifies *mtp, elems:pool.PoolAssetsLong, elems:pool.PoolAssetsShort, *pool.FeesCollected
 //@ ensures C09/funding-collection-leaves-position-and-pool-custody-alike: err == nil ==> perpCustodyOf(pool, s, d) - old(perpCustodyOf(pool, s, d)) == ite(sameBook(s, d, mtp.Position, mtp.CustodyAsset), mtp.Custody - old(mtp.Custody), 0)
 //@ ensures C09/funding-collection-keeps-liabilities-and-collateral: mtp.Liabilities == old(mtp.Liabilities) && mtp.Collateral == old(mtp.Collateral) && perpLiabOf(pool, s, d) == old(perpLiabOf(pool, s, d)) && perpCollOf(pool, s, d) == old(perpCollOf(pool, s, d))
 
 //@ func (Keeper).FundingFeeDistribution
 //@ forall d Str
 //@ forall s Int
-//@ modifies *mtp, *pool
+//@ modifies *mtp, elems:pool.PoolAssetsLong, elems:pool.PoolAssetsShort, *pool.FeesCollected
 //@ ensures C09/funding-distribution-leaves-position-and-pool-custody-alike: err == nil ==> perpCustodyOf(pool, s, d) - old(perpCustodyOf(pool, s, d)) == ite(sameBook(s, d, mtp.Position, mtp.CustodyAsset), mtp.Custody - old(mtp.Custody), 0)
 //@ ensures C09/funding-distribution-keeps-liabilities-and-collateral: mtp.Liabilities == old(mtp.Liabilities) && mtp.Collateral == old(mtp.Collateral) && perpLiabOf(pool, s, d) == old(perpLiabOf(pool, s, d)) && perpCollOf(pool, s, d) == old(perpCollOf(pool, s, d))
 
@@ -272,6 +348,12 @@ package keeper
 //@ modifies module:perpetual, *existingMtp, *newMtp
 //@ inline
 //@ ensures C09/merge-moves-the-amounts-to-the-surviving-position: err == nil ==> existingMtp.Custody == old(existingMtp.Custody) + old(newMtp.Custody) && existingMtp.Liabilities == old(existingMtp.Liabilities) + old(newMtp.Liabilities) && existingMtp.Collateral == old(existingMtp.Collateral) + old(newMtp.Collateral)
+//@ forall p Int
+//@ forall s Int
+//@ forall d Str
+//@ define sameBooks(a, b) := a.AmmPoolId == b.AmmPoolId && (a.Position == 1) == (b.Position == 1) && a.CustodyAsset == b.CustodyAsset && a.LiabilitiesAsset == b.LiabilitiesAsset && a.CollateralAsset == b.CollateralAsset
+//@ define asStored(ctx, m, p, s, d) := m.Id != 0 && objCustody(m, p, s, d) == rowCustody(ctx, unbech32(m.Address), m.Id, p, s, d) && objLiab(m, p, s, d) == rowLiab(ctx, unbech32(m.Address), m.Id, p, s, d) && objColl(m, p, s, d) == rowColl(ctx, unbech32(m.Address), m.Id, p, s, d)
+//@ ensures C09/merge-keeps-the-sums-over-positions: err == nil && old(sameBooks(existingMtp, newMtp) && asStored(ctx, existingMtp, p, s, d) && asStored(ctx, newMtp, p, s, d) && (unbech32(existingMtp.Address) != unbech32(newMtp.Address) || existingMtp.Id != newMtp.Id)) ==> mtpCustodySum(ctx, p, s, d) == old(mtpCustodySum(ctx, p, s, d)) && mtpLiabSum(ctx, p, s, d) == old(mtpLiabSum(ctx, p, s, d)) && mtpCollSum(ctx, p, s, d) == old(mtpCollSum(ctx, p, s, d))
 //@ ensures C09/merge-removes-the-merged-position: err == nil ==> !mtpHas(ctx, unbech32(newMtp.Address), newMtp.Id)
 //@ ensures C09/merge-stores-the-surviving-position: err == nil && (unbech32(existingMtp.Address) != unbech32(newMtp.Address) || existingMtp.Id != newMtp.Id) ==> mtpHas(ctx, unbech32(existingMtp.Address), existingMtp.Id) && mtpRow(ctx, unbech32(existingMtp.Address), existingMtp.Id).Custody == existingMtp.Custody && mtpRow(ctx, unbech32(existingMtp.Address), existingMtp.Id).Liabilities == existingMtp.Liabilities && mtpRow(ctx, unbech32(existingMtp.Address), existingMtp.Id).Collateral == existingMtp.Collateral
 
